@@ -8,6 +8,7 @@ package server
 // command documentation; semantic content comes from the maps.
 
 import (
+	"unicode/utf8"
 	"regexp"
 	"math"
 	"fmt"
@@ -933,11 +934,14 @@ func mGlob(p, s string) bool {
 		}
 		return false
 	case '?':
-		return s != "" && mGlob(p[1:], s[1:])
+		// one character, not one byte
+		_, n := utf8.DecodeRuneInString(s)
+		return s != "" && mGlob(p[1:], s[n:])
 	case '[':
 		if s == "" {
 			return false
 		}
+		sr, sn := utf8.DecodeRuneInString(s)
 		i := 1
 		neg := false
 		if i < len(p) && (p[i] == '^' || p[i] == '!') {
@@ -948,25 +952,24 @@ func mGlob(p, s string) bool {
 		first := true
 		for i < len(p) && (p[i] != ']' || first) {
 			first = false
-			lo := p[i]
-			if lo == '\\' && i+1 < len(p) {
+			if p[i] == '\\' && i+1 < len(p) {
 				i++
-				lo = p[i]
 			}
+			lo, n := utf8.DecodeRuneInString(p[i:])
+			i += n
 			hi := lo
-			if i+2 < len(p) && p[i+1] == '-' && p[i+2] != ']' {
-				hi = p[i+2]
-				i += 2
+			if i+1 < len(p) && p[i] == '-' && p[i+1] != ']' {
+				hi, n = utf8.DecodeRuneInString(p[i+1:])
+				i += 1 + n
 			}
-			if lo <= s[0] && s[0] <= hi {
+			if lo <= sr && sr <= hi {
 				ok = true
 			}
-			i++
 		}
 		if i >= len(p) {
 			return false // unterminated class
 		}
-		return ok != neg && mGlob(p[i+1:], s[1:])
+		return ok != neg && mGlob(p[i+1:], s[sn:])
 	case '\\':
 		if len(p) > 1 {
 			return s != "" && s[0] == p[1] && mGlob(p[2:], s[1:])
